@@ -19,21 +19,38 @@ Idx(m) == CASE m = "p" -> 0 [] m = "q" -> 1 [] m = "r" -> 2
 Pat(v) == [m \in Members |-> ((v + Idx(m)) % 4) + 1]
 ASSUME \A v \in SWV \cup SAV : Pat(v) \in [Members -> Vals]
 
-Obs == [hw |-> hw', mem |-> mem', str |-> str', ok |-> ok']
+Obs == [hw |-> hw', mem |-> mem', str |-> str', merr |-> merr', serr |-> serr', ok |-> ok']
 Rec(a) == hist' = Append(hist, a @@ [exp |-> Obs])
 
 GInit == /\ SInit
          /\ layout \in Layouts
-         /\ hist = <<[act |-> "init", layout |-> layout, hwmax |-> HwMax, hwmode |-> hwmode,
-                      exp |-> [hw |-> hw, mem |-> mem, str |-> str, ok |-> ok]]>>
+         /\ hwmode = "clip" => exc = "badvalue"     \* nothing is raised by a clipping hardware
+         /\ hist = <<[act |-> "init", layout |-> layout, hwmax |-> HwMax, hwmode |-> hwmode, exc |-> exc,
+                      exp |-> [hw |-> hw, mem |-> mem, str |-> str, merr |-> merr, serr |-> serr, ok |-> ok]]>>
 GNext == /\ UNCHANGED layout
-         /\ \/ \E v \in SWV : WriteStruct(Pat(v)) /\ Rec([act |-> "ws", v |-> Pat(v)])
+         /\ \/ \E v \in SWV : WriteStruct(Pat(v), "none") /\ Rec([act |-> "ws", v |-> Pat(v)])
             \/ \E v \in SAV : AssignStruct(Pat(v)) /\ Rec([act |-> "as", v |-> Pat(v)])
-            \/ \E m \in WM, v \in WV : WriteMember(m, v) /\ Rec([act |-> "wm", m |-> m, v |-> v])
+            \/ \E m \in WM, v \in WV : WriteMember(m, v, "none") /\ Rec([act |-> "wm", m |-> m, v |-> v])
             \/ \E m \in AM, v \in AV : AssignMember(m, v) /\ Rec([act |-> "am", m |-> m, v |-> v])
-            \/ RS /\ ReadStruct /\ Rec([act |-> "rs"])
-            \/ \E m \in RM : ReadMember(m) /\ Rec([act |-> "rm", m |-> m])
+            \/ RS /\ ReadStruct("none") /\ Rec([act |-> "rs"])
+            \/ \E m \in RM : ReadMember(m, "none") /\ Rec([act |-> "rm", m |-> m])
 GSpec == GInit /\ [][GNext]_<<svars, hist, layout>>
+
+(* ---- sequences with faults: only the operations are enumerated (every one with and without a fault on *)
+(* member FM); the recorded execution is judged by Trace_LinkedStruct, because a failing operation has    *)
+(* many allowed outcomes                                                                                  *)
+CONSTANTS FM, FDepth
+HwOps == {[act |-> "ws", v |-> Pat(2)], [act |-> "wm", m |-> "p", v |-> 1], [act |-> "wm", m |-> FM, v |-> 2],
+          [act |-> "rs"], [act |-> "rm", m |-> "p"], [act |-> "rm", m |-> FM]}
+FOps == {o @@ [f |-> f] : o \in HwOps, f \in {"none", FM}} \cup {[act |-> "am", m |-> "p", v |-> 3]}
+FInit == /\ SInit /\ layout \in Layouts /\ hwmode = "clip"
+         /\ hist = <<[act |-> "init", layout |-> layout, hwmax |-> HwMax, hwmode |-> hwmode, exc |-> exc,
+                      exp |-> [hw |-> hw]]>>
+FNext == /\ UNCHANGED <<svars, layout>>
+         /\ \E o \in FOps : hist' = Append(hist, o)
+FGSpec == FInit /\ [][FNext]_<<svars, hist, layout>>
+FBound == TLCGet("level") <= FDepth
+FEmit == (TLCGet("level") = FDepth + 1) => PrintT(<<"SEQ", ToJson(hist)>>)
 
 D == IF hwmode = "clip" THEN Depth ELSE Depth2
 Bound == TLCGet("level") <= D
